@@ -204,19 +204,20 @@ def part_traces(ctx, rng):
                 what = "final bound"
             elif j % 3 == 1:  # accepted positions of the first batch
                 e = t["ev"][0]
-                e["acc"] = [x for x in range(1, len(e["as"]) + 1) if x not in e["acc"]] or [1]
-                if e["acc"] == t["ev"][0]["acc"]:
-                    e["acc"] = []
+                e["acc"] = [x for x in range(1, len(e["as"]) + 1) if x not in e["acc"]]  # the complement: never equal
                 what = "accepted positions"
             else:  # one weight
                 e = t["ev"][0]
-                e["as"][0] = e["as"][0] + 5
+                e["as"][0] = e["as"][0] + 1000  # effective weight above the logged bound whatever the importance
                 what = "weight"
             demos.append((what, t))
         n_rej = 0
+        missed = []
         for what, t in demos:
             a, rj = S.validate(ctx, [t], "multi", "demo")
             n_rej += 1 if rj else 0
+            if not rj:
+                missed.append(what)
         # one wrapper removed: a trace without its Thin records must not be accepted
         t = copy.deepcopy(good[0])
         t["ev"] = [e for e in t["ev"] if e["a"] != "Thin"]
@@ -224,7 +225,7 @@ def part_traces(ctx, rng):
         n_rej += 1 if rj else 0
         ctx.part("binding_demo", corrupted=len(demos) + 1, rejected=n_rej)
         if n_rej != len(demos) + 1:
-            raise tlc.MachineryError("binding demonstration failed: %d of %d corrupted traces were accepted" % (len(demos) + 1 - n_rej, len(demos) + 1))
+            raise tlc.MachineryError("binding demonstration failed: %d of %d corrupted traces were accepted %s" % (len(demos) + 1 - n_rej, len(demos) + 1, missed))
 
 
 def part_float_bound(ctx):
